@@ -80,12 +80,15 @@ def expireVec (cutoff : Int) (v : List Ev) : List Ev := v.filter fun e => decide
 def expireVecLegacy (cutoff : Int) (v : List Ev) : List Ev :=
   v.drop (partitionPoint (fun e => decide (e.ts < cutoff)) v)
 
+/-- `if let Some(last_gc) = self.last_gc { if current_time - last_gc < self.gc_interval { return; } }` -/
+def gated (c : Cfg) (s : St) (now : Int) : Bool :=
+  match s.lastGc with
+  | some g => decide (now - g < gcInterval c.window)
+  | none => false
+
 /-- `cleanup_expired(now)`, parameterised by the per-entry action -/
 def cleanupWith (act : Int → List Ev → List Ev) (c : Cfg) (s : St) (now : Int) : St :=
-  let gated := match s.lastGc with
-    | some g => decide (now - g < gcInterval c.window)
-    | none => false
-  if gated then s
+  if gated c s now then s
   else
     let cutoff := now - c.window
     let expired := s.queue.filter fun q => decide (q.1 ≤ now)
